@@ -4,9 +4,11 @@
 // on the real object (two OpResult slots "a" and "b") and one ndjson line is written per operation
 // (see OpResultTrace.tla):
 //   {"e":action,"c":[object,args...],"r":[returned values],
-//    "s":{"a":{st,has,val,am,own},"b":{...}},"live":n,"errs":n}
+//    "s":{"a":{st,has,val,am,own},"b":{...}},"live":n,"errs":n,"dead":n}
 // has/val/am (address of the contained object mod alignof(T)) only for an object in state "ok";
-// own = number of live tracked objects inside the OpResult's bytes.  The C++ side judges nothing.
+// own = number of live tracked objects inside the OpResult's bytes; dead = number of copy / move
+// constructions and assignments of the payload whose SOURCE object was not alive (see Pay).
+// The C++ side judges nothing.
 //
 //   --out FILE
 //   --schedules FILE     replay (bin/walker.py output); the first step of a schedule is Config
@@ -21,6 +23,39 @@
 using ctl::Json;
 
 enum { NONE = 0, OK = 1, MOVED = 2 };
+
+// Payload = the tracked element of seq_common.h + "was the object I am copied / moved / assigned
+// FROM alive?".  Construct / destroy counters stay balanced when an OpResult ends the lifetime of
+// its contained object and THEN reads it as the source of the new one (value assignment /
+// emplace-style paths whose argument aliases the contained object: r = r.value(),
+// best = std::max(best.value(), cand)); with an int payload even the value survives.  Only the
+// liveness of the source tells, so it is recorded on its own ("dead") next to the registry's errs.
+namespace {
+long long g_deadSrc = 0;
+template <int A>
+struct Pay : Elem<A> {
+  static const Elem<A>& src(const Pay& o) {
+    if (g_reg.find(&o) < 0)
+      ++g_deadSrc;
+    return o;
+  }
+  explicit Pay(int v) noexcept : Elem<A>(v) {}
+  Pay(const Pay& o) noexcept : Elem<A>(src(o)) {}
+  Pay(Pay&& o) noexcept : Elem<A>(std::move(const_cast<Elem<A>&>(src(o)))) {}
+  Pay& operator=(const Pay& o) noexcept {
+    Elem<A>::operator=(src(o));
+    return *this;
+  }
+  Pay& operator=(Pay&& o) noexcept {
+    Elem<A>::operator=(std::move(const_cast<Elem<A>&>(src(o))));
+    return *this;
+  }
+};
+using PInt = Pay<4>;
+using PBig = Pay<64>;
+static_assert(alignof(PInt) == 4 && sizeof(PInt) == 4, "tracked int");
+static_assert(alignof(PBig) == 64 && sizeof(PBig) == 64, "over-aligned tracked struct");
+} // namespace
 
 template <class T>
 struct Runner {
@@ -92,6 +127,29 @@ struct Runner {
     } else if (a == "AssignValue") {
       v(o) = T(static_cast<int>(k.num(1)));
       stt[o] = OK;
+    } else if (a == "AssignValueCopy") {
+      // a plain lvalue that lives outside every OpResult (AssignValue assigns a temporary)
+      T x(static_cast<int>(k.num(1)));
+      v(o) = x;
+      stt[o] = OK;
+    } else if (a == "AssignValueOf") {
+      // The assigned value IS the object contained in OpResult s - for s == o in the destination
+      // itself.  std::optional assigns through / constructs from it while it is alive; an
+      // operator= that destroys the contained object before reading its argument does not.
+      int s = oi(k.c[1]);
+      long long how = k.num(2);
+      if (how == 1) {
+        v(o) = v(s).value();
+      } else if (how == 2) {
+        const T& cr = v(s).value(); // what std::max(best.value(), cand) returns when best wins
+        v(o) = cr;
+      } else if (how == 3 && s == o) {
+        v(o) = std::move(v(o).value());
+      } else {
+        fprintf(stderr, "ERROR drv_opresult: bad AssignValueOf\n");
+        _exit(3);
+      }
+      stt[o] = OK;
     } else if (a == "Emplace") {
       T& ref = v(o).emplace(static_cast<int>(k.num(1)));
       stt[o] = OK;
@@ -153,6 +211,7 @@ struct Runner {
     j.endObj();
     j.kv("live", (long long)g_reg.n);
     j.kv("errs", g_reg.errs);
+    j.kv("dead", g_deadSrc);
     j.endObj();
     tr.line(j.s);
     tr.flush(); // a crash in the next operation leaves only complete lines behind
@@ -160,6 +219,7 @@ struct Runner {
 
   void begin(const char* tname, const std::string& tag) {
     g_reg.reset();
+    g_deadSrc = 0;
     Json j;
     j.beginObj();
     j.kv("e", std::string("Reset"));
@@ -178,6 +238,7 @@ struct Runner {
     j.kv("e", std::string("End"));
     j.kv("live", (long long)g_reg.n);
     j.kv("errs", g_reg.errs);
+    j.kv("dead", g_deadSrc);
     j.kv("ctors", g_reg.ctors);
     j.kv("dtors", g_reg.dtors);
     j.endObj();
@@ -194,7 +255,8 @@ struct Runner {
                                   "MoveCtor",    "Destroy",       "CopyAssign",    "MoveAssign",
                                   "AssignValue", "Emplace",       "SetValue",      "HasValue",
                                   "Bool",        "Value",         "CopyAssign",    "MoveAssign",
-                                  "CopyCtor",    "MoveCtor"};
+                                  "CopyCtor",    "MoveCtor",      "AssignValueCopy", "AssignValueOf",
+                                  "AssignValueOf"};
     const size_t nk = sizeof(kinds) / sizeof(kinds[0]);
     auto rnd = [&](long long m) { return (long long)(ctl::splitmix(rng) % (uint64_t)m); };
     static const char* on[] = {"a", "b"};
@@ -252,7 +314,16 @@ struct Runner {
             }
             ok = true;
           }
-        } else if (a == "AssignValue" || a == "Emplace") {
+        } else if (a == "AssignValueOf") {
+          // d = (reference to) the value contained in p; p == o: the destination's own value
+          if (sst[o] != NONE && sst[p] == OK && eng[p]) {
+            long long how = 1 + rnd(o == p ? 3 : 2);
+            k = mk(a, {S(on[o]), S(on[p]), I(how)});
+            sst[o] = OK;
+            eng[o] = true;
+            ok = true;
+          }
+        } else if (a == "AssignValue" || a == "Emplace" || a == "AssignValueCopy") {
           if (sst[o] != NONE) {
             k = mk(a, {S(on[o]), I(next++)});
             sst[o] = OK;
@@ -320,9 +391,9 @@ int main(int argc, char** argv) {
       }
       std::string tag = "sched" + std::to_string(idx++);
       if (doInt)
-        runSchedule<TInt>(tot, tr, s, "int", tag);
+        runSchedule<PInt>(tot, tr, s, "int", tag);
       if (doBig)
-        runSchedule<TBig>(tot, tr, s, "big", tag);
+        runSchedule<PBig>(tot, tr, s, "big", tag);
     }
   } else {
     long long k = a.num("random", 10), len = a.num("len", 30);
@@ -331,9 +402,9 @@ int main(int argc, char** argv) {
       uint64_t s = seed * 1000003ULL + (uint64_t)i * 7919ULL;
       std::string tag = "rand" + std::to_string(s);
       if (doInt)
-        runRandom<TInt>(tot, tr, s, len, "int", tag);
+        runRandom<PInt>(tot, tr, s, len, "int", tag);
       if (doBig)
-        runRandom<TBig>(tot, tr, s + 1, len, "big", tag);
+        runRandom<PBig>(tot, tr, s + 1, len, "big", tag);
     }
   }
   tr.flush();
